@@ -2,10 +2,36 @@ package main
 
 import (
 	"encoding/json"
+	"fmt"
 	"os"
 	"path/filepath"
+	"regexp"
 	"strings"
 )
+
+// scaleGfd builds the scaled-geometry variant of internal/gfd/gfd.go for C14: a copy of the
+// CURRENT file in which only the two lines defining ConnMatrixRowMax / ConnMatrixColumnMax are
+// replaced. Anything else stays as it is in the working tree.
+func scaleGfd(dir string, u Unit, repl map[string]string) error {
+	src := filepath.Join(repoDir, "internal", "gfd", "gfd.go")
+	b, err := os.ReadFile(src)
+	if err != nil {
+		return err
+	}
+	reRow := regexp.MustCompile(`(?m)^(\s*ConnMatrixRowMax\s*=).*$`)
+	reCol := regexp.MustCompile(`(?m)^(\s*ConnMatrixColumnMax\s*=).*$`)
+	if len(reRow.FindAll(b, -1)) != 1 || len(reCol.FindAll(b, -1)) != 1 {
+		return fmt.Errorf("scaled geometry: cannot find exactly one definition of ConnMatrixRowMax/ConnMatrixColumnMax in %s", src)
+	}
+	out := reRow.ReplaceAll(b, []byte(fmt.Sprintf("${1} %d", u.GfdGeometry[0])))
+	out = reCol.ReplaceAll(out, []byte(fmt.Sprintf("${1} %d", u.GfdGeometry[1])))
+	dst := filepath.Join(dir, "gfd_scaled.go")
+	if err := os.WriteFile(dst, out, 0o644); err != nil {
+		return err
+	}
+	repl[src] = dst
+	return nil
+}
 
 // makeOverlay writes overlay.json for one unit into dir and returns its path.
 //   - every /verif/harness/<pkg>/*_mc_test.go is mapped to /repo/<pkg>/zz_<name>
@@ -63,6 +89,11 @@ func makeOverlay(dir string, u Unit) (string, error) {
 	}
 	if u.Instrument {
 		if err := instrument(dir, u, repl); err != nil {
+			return "", err
+		}
+	}
+	if u.GfdGeometry[0] > 0 {
+		if err := scaleGfd(dir, u, repl); err != nil {
 			return "", err
 		}
 	}
